@@ -12,8 +12,9 @@ Per backend `b`:
                      under the selected ABI, `[task-return]`, resource intrinsics, future/stream
                      intrinsics of every payload site) are the ones the spec assigns to the same item;
 * `b_export_names`   same for exports (function, `[callback]`, `cabi_post_`, `[dtor]`);
-* `b_core_sig`       the core signatures of these declarations are the spec's (`wasmSignature` of the
-                     variant that matches the name prefix, flattened `task.return`, post-return);
+* `b_core_sig`       (definitional for the signature: the models call `wasmSignature` like the code does)
+                     the ABI *variant* handed to `wasmSignature` is the one matching the emitted name
+                     prefix; the declared signatures themselves are tied by the correspondence run only;
 * `b_exports_complete`   every export the world requires is emitted;
 * `b_world_sound`    over the whole world traversal: every emitted import ∈ `Spec.allImports w`, every
                      emitted export ∈ `Spec.allExports w` (an export outside this set is silently ignored
@@ -72,6 +73,13 @@ theorem c_export_names (k : Key) (f : Fn) :
     (f.sel = false → Spec.funcExport .sync k f .postReturn = some (C.postReturnExport k f)) :=
   ⟨C.mainExport_eq k f, C.callbackExport_eq k f, C.postReturnExport_eq k f⟩
 
+/-- DEFINITIONAL w.r.t. the signature itself: the backend models take their core signatures from
+`wasmSignature` (as every generator does: `resolve.wasm_signature(variant, func)`), so what this
+theorem establishes is only that the *variant* the model passes is the one belonging to the name
+prefix it emits (`[async-lower]` ↔ `GuestImportAsync`, `[async-lift]` ↔ `GuestExportAsync`, the
+flattened `task.return`).  That the signature the backend actually *declares in its text* is this
+one is not proved here: it is the names-run correspondence (parameter/result types cut out of the
+generated C/Rust/Go/… declarations and compared with the model and with wit-parser) that ties it. -/
 theorem c_core_sig (k : Key) (f : Fn) :
     (C.funcImport k f).params = norm (wasmSignature (Spec.abiOf f).importVariant f.sig).params ∧
     (C.funcImport k f).results = norm (wasmSignature (Spec.abiOf f).importVariant f.sig).results ∧
@@ -129,6 +137,13 @@ theorem rust_export_names (k : Key) (f : Fn) :
   intro r m hm
   rw [spec_dtor hm]; simp [Rust.exportRes, hm, Rust.norm_ptr]
 
+/-- DEFINITIONAL w.r.t. the signature itself: the backend models take their core signatures from
+`wasmSignature` (as every generator does: `resolve.wasm_signature(variant, func)`), so what this
+theorem establishes is only that the *variant* the model passes is the one belonging to the name
+prefix it emits (`[async-lower]` ↔ `GuestImportAsync`, `[async-lift]` ↔ `GuestExportAsync`, the
+flattened `task.return`).  That the signature the backend actually *declares in its text* is this
+one is not proved here: it is the names-run correspondence (parameter/result types cut out of the
+generated C/Rust/Go/… declarations and compared with the model and with wit-parser) that ties it. -/
 theorem rust_core_sig (k : Key) (f : Fn) :
     (Rust.funcImport k f).params = norm (wasmSignature (Spec.abiOf f).importVariant f.sig).params ∧
     (Rust.funcImport k f).results = norm (wasmSignature (Spec.abiOf f).importVariant f.sig).results ∧
@@ -171,6 +186,13 @@ theorem go_export_names (k : Key) (f : Fn) :
   intro r m hm
   rw [spec_dtor hm]; simp [Go.exportRes, rootOr_of_worldKey hm]
 
+/-- DEFINITIONAL w.r.t. the signature itself: the backend models take their core signatures from
+`wasmSignature` (as every generator does: `resolve.wasm_signature(variant, func)`), so what this
+theorem establishes is only that the *variant* the model passes is the one belonging to the name
+prefix it emits (`[async-lower]` ↔ `GuestImportAsync`, `[async-lift]` ↔ `GuestExportAsync`, the
+flattened `task.return`).  That the signature the backend actually *declares in its text* is this
+one is not proved here: it is the names-run correspondence (parameter/result types cut out of the
+generated C/Rust/Go/… declarations and compared with the model and with wit-parser) that ties it. -/
 theorem go_core_sig (k : Key) (f : Fn) :
     (Go.funcImport k f).params = norm (wasmSignature (Spec.abiOf f).importVariant f.sig).params ∧
     (Go.funcImport k f).results = norm (wasmSignature (Spec.abiOf f).importVariant f.sig).results ∧
@@ -203,6 +225,13 @@ theorem d_export_names (k : Key) (f : Fn) :
   intro r m hm
   rw [spec_dtor hm]; simp [D.exportRes, rootOr_of_worldKey hm]
 
+/-- DEFINITIONAL w.r.t. the signature itself: the backend models take their core signatures from
+`wasmSignature` (as every generator does: `resolve.wasm_signature(variant, func)`), so what this
+theorem establishes is only that the *variant* the model passes is the one belonging to the name
+prefix it emits (`[async-lower]` ↔ `GuestImportAsync`, `[async-lift]` ↔ `GuestExportAsync`, the
+flattened `task.return`).  That the signature the backend actually *declares in its text* is this
+one is not proved here: it is the names-run correspondence (parameter/result types cut out of the
+generated C/Rust/Go/… declarations and compared with the model and with wit-parser) that ties it. -/
 theorem d_core_sig (k : Key) (f : Fn) :
     (D.funcImport k f).params = norm (wasmSignature .guestImport f.sig).params ∧
     (D.funcImport k f).results = norm (wasmSignature .guestImport f.sig).results ∧
@@ -236,6 +265,13 @@ theorem cpp_export_names (k : Key) (f : Fn) :
 example : Cpp.postReturnExport .root (fn .free "" "run-it" false false ⟨false, [], some .string⟩) =
     ⟨"cabi_post_run-it", [.i32], []⟩ := by decide
 
+/-- DEFINITIONAL w.r.t. the signature itself: the backend models take their core signatures from
+`wasmSignature` (as every generator does: `resolve.wasm_signature(variant, func)`), so what this
+theorem establishes is only that the *variant* the model passes is the one belonging to the name
+prefix it emits (`[async-lower]` ↔ `GuestImportAsync`, `[async-lift]` ↔ `GuestExportAsync`, the
+flattened `task.return`).  That the signature the backend actually *declares in its text* is this
+one is not proved here: it is the names-run correspondence (parameter/result types cut out of the
+generated C/Rust/Go/… declarations and compared with the model and with wit-parser) that ties it. -/
 theorem cpp_core_sig (k : Key) (f : Fn) :
     (Cpp.funcImport k f).params = norm (wasmSignature .guestImport f.sig).params ∧
     (Cpp.funcImport k f).results = norm (wasmSignature .guestImport f.sig).results ∧
@@ -330,6 +366,13 @@ theorem csharp_fs_intrinsic_names_partial (k : Key) (name : String) (exported st
       ∃ op a, Spec.fsIntrinsic k name stream (.idx index) op exported a = some d :=
   CSharp.fsDecls_take7_spec k name exported stream index
 
+/-- DEFINITIONAL w.r.t. the signature itself: the backend models take their core signatures from
+`wasmSignature` (as every generator does: `resolve.wasm_signature(variant, func)`), so what this
+theorem establishes is only that the *variant* the model passes is the one belonging to the name
+prefix it emits (`[async-lower]` ↔ `GuestImportAsync`, `[async-lift]` ↔ `GuestExportAsync`, the
+flattened `task.return`).  That the signature the backend actually *declares in its text* is this
+one is not proved here: it is the names-run correspondence (parameter/result types cut out of the
+generated C/Rust/Go/… declarations and compared with the model and with wit-parser) that ties it. -/
 theorem csharp_core_sig (k : Key) (f : Fn) :
     (CSharp.funcImport k f).params = norm (wasmSignature (Spec.abiOf f).importVariant f.sig).params ∧
     (CSharp.mainExport k f).params = norm (wasmSignature (Spec.abiOf f).exportVariant f.sig).params ∧
